@@ -364,10 +364,38 @@ func (c *Ctx) newickTables(wt, wn, pi, sc, si, ii *FuncInfo) {
 		c.Check(k1 == k2, "TABLE", "newick/token-runes=isIdent-rejects", sc.Decl.Pos(), "dedicated token runes "+k1+" are exactly the runes isIdent rejects", "Scanner.Scan gives dedicated tokens to "+k1+" but isIdent rejects "+k2+" (plain|only-when-';'-matters): a rune in one set only is either swallowed into identifiers or never tokenised").Clause = clause
 	}
 	// writer delimiters
-	winfo := wn.Pkg.TypesInfo
+	_ = wn
 	wdel := map[string]token.Pos{}
 	sep := map[string]token.Pos{}
-	for _, fi := range []*FuncInfo{wt, wn} {
+	// the writer = Tree.Newick, Node.Newick and the helpers they hand their buffer to
+	writers := []*FuncInfo{wt, wn}
+	seenW := map[*types.Func]bool{wt.Obj: true, wn.Obj: true}
+	for i := 0; i < len(writers) && i < 12; i++ {
+		fi := writers[i]
+		for _, call := range callsIn(fi.Decl.Body, true) {
+			g := calleeOf(fi.Pkg.TypesInfo, call)
+			if g == nil || seenW[g] || !inRepo(g) {
+				continue
+			}
+			takesBuffer := false
+			sig := g.Type().(*types.Signature)
+			for k := 0; k < sig.Params().Len(); k++ {
+				ts := sig.Params().At(k).Type().String()
+				if ts == "*bytes.Buffer" || ts == "*strings.Builder" || ts == "io.Writer" {
+					takesBuffer = true
+				}
+			}
+			if !takesBuffer {
+				continue
+			}
+			if gi := c.FuncOfObj(g); gi != nil && gi.Decl.Body != nil {
+				seenW[g] = true
+				writers = append(writers, gi)
+			}
+		}
+	}
+	for _, fi := range writers {
+		winfo := fi.Pkg.TypesInfo
 		ast.Inspect(fi.Decl.Body, func(n ast.Node) bool {
 			bl, ok := n.(*ast.BasicLit)
 			if !ok || bl.Kind != token.STRING && bl.Kind != token.CHAR {
